@@ -1,0 +1,613 @@
+//! Doors into crate-private code for the external verification harness (/verif).
+//!
+//! Everything here is an adapter: it converts between plain public types and the
+//! crate-private ones and calls the production code. No production logic lives here.
+
+#![allow(dead_code, clippy::type_complexity)]
+
+use crate::http_datagram_codec::{DecodeResult, Decoder as _, Encoder as _};
+use crate::{downstream, forwarder, http_icmp_codec, http_udp_codec, log_utils, net_utils};
+use bytes::Bytes;
+use std::net::{IpAddr, SocketAddr};
+
+// ---------------------------------------------------------------------------------------------
+// net_utils
+// ---------------------------------------------------------------------------------------------
+
+pub fn is_global_ip(ip: &IpAddr) -> bool {
+    net_utils::is_global_ip(ip)
+}
+
+pub fn skip_ipv4_header(packet: Bytes) -> Option<(i32, Bytes)> {
+    net_utils::skip_ipv4_header(packet)
+}
+
+pub fn skip_ipv6_header(packet: Bytes) -> Option<(i32, Bytes)> {
+    net_utils::skip_ipv6_header(packet)
+}
+
+pub fn rfc1071_checksum(bytes: &[u8]) -> u16 {
+    net_utils::rfc1071_checksum(bytes)
+}
+
+pub fn scrub_sni(sni: String) -> String {
+    net_utils::scrub_sni(sni)
+}
+
+// ---------------------------------------------------------------------------------------------
+// UDP multiplexer codec (PROTOCOL.md 6.3 / 6.4)
+// ---------------------------------------------------------------------------------------------
+
+#[derive(Debug, Clone, PartialEq, Eq, Hash)]
+pub struct VUdpIn {
+    pub source: SocketAddr,
+    pub destination: SocketAddr,
+    pub app_name: Option<String>,
+    pub payload: Vec<u8>,
+}
+
+pub struct VUdpDecoder(http_udp_codec::Decoder);
+
+impl VUdpDecoder {
+    pub fn new() -> Self {
+        Self(http_udp_codec::Decoder::new(log_utils::IdChain::empty()))
+    }
+
+    /// One call of the production `decode_chunk`: `None` = want more,
+    /// `Some((datagram, unprocessed tail))` otherwise.
+    pub fn decode_chunk(&mut self, data: Bytes) -> Option<(VUdpIn, Bytes)> {
+        match self.0.decode_chunk(data) {
+            DecodeResult::WantMore => None,
+            DecodeResult::Complete(d, tail) => Some((
+                VUdpIn {
+                    source: d.meta.source,
+                    destination: d.meta.destination,
+                    app_name: d.meta.app_name,
+                    payload: d.payload.to_vec(),
+                },
+                tail,
+            )),
+        }
+    }
+}
+
+impl Default for VUdpDecoder {
+    fn default() -> Self {
+        Self::new()
+    }
+}
+
+pub fn udp_encode(source: SocketAddr, destination: SocketAddr, payload: Bytes) -> Option<Bytes> {
+    http_udp_codec::Encoder::default().encode_packet(&forwarder::UdpDatagram {
+        meta: forwarder::UdpDatagramMeta {
+            source,
+            destination,
+        },
+        payload,
+    })
+}
+
+// ---------------------------------------------------------------------------------------------
+// ICMP multiplexer codec (PROTOCOL.md 7.3 / 7.4)
+// ---------------------------------------------------------------------------------------------
+
+#[derive(Debug, Clone, PartialEq, Eq, Hash)]
+pub struct VIcmpIn {
+    pub peer: IpAddr,
+    pub is_v6_message: bool,
+    pub identifier: u16,
+    pub sequence_number: u16,
+    pub ttl: u8,
+    pub data_len: usize,
+    pub code: u8,
+}
+
+pub struct VIcmpDecoder(http_icmp_codec::Decoder);
+
+impl VIcmpDecoder {
+    pub fn new() -> Self {
+        Self(http_icmp_codec::Decoder::new())
+    }
+
+    pub fn decode_chunk(&mut self, data: Bytes) -> Option<(VIcmpIn, Bytes)> {
+        match self.0.decode_chunk(data) {
+            DecodeResult::WantMore => None,
+            DecodeResult::Complete(d, tail) => {
+                let (is_v6, echo) = match &d.message {
+                    crate::icmp_utils::Message::V4(crate::icmp_utils::v4::Message::Echo(e)) => {
+                        (false, e.clone())
+                    }
+                    crate::icmp_utils::Message::V6(
+                        crate::icmp_utils::v6::Message::EchoRequest(e),
+                    ) => (true, e.clone()),
+                    _ => unreachable!("the ICMP stream decoder only produces echo requests"),
+                };
+                Some((
+                    VIcmpIn {
+                        peer: d.meta.peer,
+                        is_v6_message: is_v6,
+                        identifier: echo.identifier,
+                        sequence_number: echo.sequence_number,
+                        ttl: d.ttl,
+                        data_len: echo.data.len(),
+                        code: echo.code,
+                    },
+                    tail,
+                ))
+            }
+        }
+    }
+}
+
+impl Default for VIcmpDecoder {
+    fn default() -> Self {
+        Self::new()
+    }
+}
+
+// keep `downstream` referenced for later doors
+#[allow(unused)]
+type _KeepDownstream = downstream::UdpDatagramMeta;
+
+// ---------------------------------------------------------------------------------------------
+// Context
+// ---------------------------------------------------------------------------------------------
+
+use crate::core::{Context, Core};
+use crate::tls_demultiplexer::Protocol;
+use crate::{pipe, tunnel};
+use async_trait::async_trait;
+use std::io;
+use std::sync::Arc;
+use std::time::Duration;
+use tokio::io::{AsyncRead, AsyncWrite, ReadBuf};
+
+#[derive(Clone)]
+pub struct VContext(pub(crate) Arc<Context>);
+
+pub fn context(core: &Core) -> VContext {
+    VContext(core.verif_context())
+}
+
+#[derive(Debug, Copy, Clone, PartialEq, Eq, Hash)]
+pub enum VProtocol {
+    Http1,
+    Http2,
+    Http3,
+}
+
+impl From<Protocol> for VProtocol {
+    fn from(p: Protocol) -> Self {
+        match p {
+            Protocol::Http1 => VProtocol::Http1,
+            Protocol::Http2 => VProtocol::Http2,
+            Protocol::Http3 => VProtocol::Http3,
+        }
+    }
+}
+
+impl From<VProtocol> for Protocol {
+    fn from(p: VProtocol) -> Self {
+        match p {
+            VProtocol::Http1 => Protocol::Http1,
+            VProtocol::Http2 => Protocol::Http2,
+            VProtocol::Http3 => Protocol::Http3,
+        }
+    }
+}
+
+#[derive(Debug, Copy, Clone, PartialEq, Eq, Hash)]
+pub enum VChannel {
+    Tunnel,
+    Ping,
+    Speedtest,
+    ReverseProxy,
+}
+
+impl From<net_utils::Channel> for VChannel {
+    fn from(c: net_utils::Channel) -> Self {
+        match c {
+            net_utils::Channel::Tunnel => VChannel::Tunnel,
+            net_utils::Channel::Ping => VChannel::Ping,
+            net_utils::Channel::Speedtest => VChannel::Speedtest,
+            net_utils::Channel::ReverseProxy => VChannel::ReverseProxy,
+        }
+    }
+}
+
+// ---------------------------------------------------------------------------------------------
+// pipe::Source / pipe::Sink mirrors
+// ---------------------------------------------------------------------------------------------
+
+/// Public mirror of the crate-private `pipe::Source` (`None` = end of stream)
+#[async_trait]
+pub trait VSource: Send {
+    async fn read(&mut self) -> io::Result<Option<Bytes>>;
+    fn consume(&mut self, size: usize) -> io::Result<()>;
+}
+
+/// Public mirror of the crate-private `pipe::Sink`
+#[async_trait]
+pub trait VSink: Send {
+    fn write(&mut self, data: Bytes) -> io::Result<Bytes>;
+    fn eof(&mut self) -> io::Result<()>;
+    async fn wait_writable(&mut self) -> io::Result<()>;
+    async fn flush(&mut self) -> io::Result<()>;
+}
+
+struct SourceIn(Box<dyn VSource>);
+struct SinkIn(Box<dyn VSink>);
+
+#[async_trait]
+impl pipe::Source for SourceIn {
+    fn id(&self) -> log_utils::IdChain<u64> {
+        log_utils::IdChain::empty()
+    }
+    async fn read(&mut self) -> io::Result<pipe::Data> {
+        Ok(match self.0.read().await? {
+            Some(b) => pipe::Data::Chunk(b),
+            None => pipe::Data::Eof,
+        })
+    }
+    fn consume(&mut self, size: usize) -> io::Result<()> {
+        self.0.consume(size)
+    }
+}
+
+#[async_trait]
+impl pipe::Sink for SinkIn {
+    fn id(&self) -> log_utils::IdChain<u64> {
+        log_utils::IdChain::empty()
+    }
+    fn write(&mut self, data: Bytes) -> io::Result<Bytes> {
+        self.0.write(data)
+    }
+    fn eof(&mut self) -> io::Result<()> {
+        self.0.eof()
+    }
+    async fn wait_writable(&mut self) -> io::Result<()> {
+        self.0.wait_writable().await
+    }
+    async fn flush(&mut self) -> io::Result<()> {
+        self.0.flush().await
+    }
+}
+
+/// A crate-produced `pipe::Source` handed out to the harness
+pub struct PSource(pub(crate) Box<dyn pipe::Source>);
+/// A crate-produced `pipe::Sink` handed out to the harness
+pub struct PSink(pub(crate) Box<dyn pipe::Sink>);
+
+#[async_trait]
+impl VSource for PSource {
+    async fn read(&mut self) -> io::Result<Option<Bytes>> {
+        Ok(match self.0.read().await? {
+            pipe::Data::Chunk(b) => Some(b),
+            pipe::Data::Eof => None,
+        })
+    }
+    fn consume(&mut self, size: usize) -> io::Result<()> {
+        self.0.consume(size)
+    }
+}
+
+#[async_trait]
+impl VSink for PSink {
+    fn write(&mut self, data: Bytes) -> io::Result<Bytes> {
+        self.0.write(data)
+    }
+    fn eof(&mut self) -> io::Result<()> {
+        self.0.eof()
+    }
+    async fn wait_writable(&mut self) -> io::Result<()> {
+        self.0.wait_writable().await
+    }
+    async fn flush(&mut self) -> io::Result<()> {
+        self.0.flush().await
+    }
+}
+
+/// `pipe::DuplexPipe::new(..).exchange(timeout)` exactly as `Tunnel::on_tcp_connect_request` wires it:
+/// `client` = downstream halves (client -> destination is the *outgoing* direction),
+/// `peer` = forwarder halves. `metrics(outgoing, n)` is the production metrics callback.
+pub async fn run_duplex_pipe<F>(
+    client: (Box<dyn VSource>, Box<dyn VSink>),
+    peer: (Box<dyn VSource>, Box<dyn VSink>),
+    timeout: Duration,
+    metrics: F,
+) -> io::Result<()>
+where
+    F: Fn(bool, usize) + Send + Clone,
+{
+    let (dstr_rx, dstr_tx) = client;
+    let (fwd_rx, fwd_tx) = peer;
+    let mut p = pipe::DuplexPipe::new(
+        (
+            pipe::SimplexDirection::Outgoing,
+            Box::new(SourceIn(dstr_rx)),
+            Box::new(SinkIn(fwd_tx)),
+        ),
+        (
+            pipe::SimplexDirection::Incoming,
+            Box::new(SourceIn(fwd_rx)),
+            Box::new(SinkIn(dstr_tx)),
+        ),
+        move |d, n| metrics(d == pipe::SimplexDirection::Outgoing, n),
+    );
+    p.exchange(timeout).await
+}
+
+// ---------------------------------------------------------------------------------------------
+// TCP connector
+// ---------------------------------------------------------------------------------------------
+
+#[derive(Debug, Clone)]
+pub enum VDestination {
+    Address(SocketAddr),
+    HostName(String, u16),
+}
+
+#[derive(Debug, Clone, PartialEq, Eq, Hash)]
+pub enum VConnectionError {
+    Io { kind: io::ErrorKind, raw_os_error: Option<i32>, text: String },
+    Authentication(String),
+    Timeout,
+    HostUnreachable,
+    DnsNonroutable,
+    DnsLoopback,
+    Other(String),
+}
+
+impl From<tunnel::ConnectionError> for VConnectionError {
+    fn from(e: tunnel::ConnectionError) -> Self {
+        match e {
+            tunnel::ConnectionError::Io(e) => VConnectionError::Io {
+                kind: e.kind(),
+                raw_os_error: e.raw_os_error(),
+                text: e.to_string(),
+            },
+            tunnel::ConnectionError::Authentication(x) => VConnectionError::Authentication(x),
+            tunnel::ConnectionError::Timeout => VConnectionError::Timeout,
+            tunnel::ConnectionError::HostUnreachable => VConnectionError::HostUnreachable,
+            tunnel::ConnectionError::DnsNonroutable => VConnectionError::DnsNonroutable,
+            tunnel::ConnectionError::DnsLoopback => VConnectionError::DnsLoopback,
+            tunnel::ConnectionError::Other(x) => VConnectionError::Other(x),
+        }
+    }
+}
+
+/// The production `TcpForwarder::connect` for the given context and destination
+pub async fn tcp_connect(
+    ctx: &VContext,
+    destination: VDestination,
+) -> Result<(PSource, PSink), VConnectionError> {
+    use crate::forwarder::TcpConnector;
+    let connector = Box::new(crate::tcp_forwarder::TcpForwarder::new(ctx.0.clone()));
+    let meta = forwarder::TcpConnectionMeta {
+        client_address: IpAddr::from([203, 0, 113, 1]),
+        destination: match destination {
+            VDestination::Address(a) => net_utils::TcpDestination::Address(a),
+            VDestination::HostName(h, p) => net_utils::TcpDestination::HostName((h, p)),
+        },
+        auth: None,
+        tls_domain: String::new(),
+        user_agent: None,
+    };
+    connector
+        .connect(log_utils::IdChain::empty(), meta)
+        .await
+        .map(|(a, b)| (PSource(a), PSink(b)))
+        .map_err(Into::into)
+}
+
+// ---------------------------------------------------------------------------------------------
+// The accept path below the socket
+// ---------------------------------------------------------------------------------------------
+
+/// Any transport plus a fixed peer address (the crate requires `PeerAddr` of its transports)
+pub struct VIo<T> {
+    inner: T,
+    peer: SocketAddr,
+}
+
+pub fn wrap_io<T>(inner: T, peer: SocketAddr) -> VIo<T> {
+    VIo { inner, peer }
+}
+
+impl<T> net_utils::PeerAddr for VIo<T> {
+    fn peer_addr(&self) -> io::Result<SocketAddr> {
+        Ok(self.peer)
+    }
+}
+
+impl<T: AsyncRead + Unpin> AsyncRead for VIo<T> {
+    fn poll_read(
+        mut self: std::pin::Pin<&mut Self>,
+        cx: &mut std::task::Context<'_>,
+        buf: &mut ReadBuf<'_>,
+    ) -> std::task::Poll<io::Result<()>> {
+        std::pin::Pin::new(&mut self.inner).poll_read(cx, buf)
+    }
+}
+
+impl<T: AsyncWrite + Unpin> AsyncWrite for VIo<T> {
+    fn poll_write(
+        mut self: std::pin::Pin<&mut Self>,
+        cx: &mut std::task::Context<'_>,
+        data: &[u8],
+    ) -> std::task::Poll<io::Result<usize>> {
+        std::pin::Pin::new(&mut self.inner).poll_write(cx, data)
+    }
+    fn poll_flush(
+        mut self: std::pin::Pin<&mut Self>,
+        cx: &mut std::task::Context<'_>,
+    ) -> std::task::Poll<io::Result<()>> {
+        std::pin::Pin::new(&mut self.inner).poll_flush(cx)
+    }
+    fn poll_shutdown(
+        mut self: std::pin::Pin<&mut Self>,
+        cx: &mut std::task::Context<'_>,
+    ) -> std::task::Poll<io::Result<()>> {
+        std::pin::Pin::new(&mut self.inner).poll_shutdown(cx)
+    }
+}
+
+/// `Core::on_tunnel_request` with the HTTP codec `Core::make_tcp_http_codec` builds over `io`
+pub async fn on_tunnel_request<T>(
+    ctx: &VContext,
+    protocol: VProtocol,
+    io: VIo<T>,
+    server_name: String,
+    sni_auth_creds: Option<String>,
+) -> io::Result<()>
+where
+    T: 'static + AsyncRead + AsyncWrite + Unpin + Send,
+{
+    let (client, tun) = Core::verif_next_ids(&ctx.0);
+    let id = log_utils::IdChain::from(log_utils::IdItem::new(log_utils::CLIENT_ID_FMT, client))
+        .extended(log_utils::IdItem::new(log_utils::TUNNEL_ID_FMT, tun));
+    let codec = Core::verif_make_codec(&ctx.0, protocol.into(), io, id.clone())?;
+    Core::verif_on_tunnel_request(
+        ctx.0.clone(),
+        protocol.into(),
+        codec,
+        server_name,
+        sni_auth_creds,
+        id,
+    )
+    .await;
+    Ok(())
+}
+
+pub fn evaluate_connection_rules(
+    ctx: &VContext,
+    client_ip: Option<IpAddr>,
+    client_random: Option<&[u8]>,
+) -> Result<(), String> {
+    Core::verif_evaluate_connection_rules(&ctx.0, client_ip, client_random)
+}
+
+#[derive(Debug, Clone, PartialEq, Eq, Hash)]
+pub struct VConnectionMeta {
+    pub sni: String,
+    pub protocol: VProtocol,
+    pub channel: VChannel,
+    pub cert_chain_path: String,
+    pub key_path: String,
+    pub cert_chain_der: Vec<Vec<u8>>,
+    pub sni_auth_creds: Option<String>,
+    /// what `{:?}` of the production `ConnectionMeta` prints
+    pub debug: String,
+}
+
+/// `TlsDemux::select` of the context's current demultiplexer (under its read lock, as `core.rs` does)
+pub fn tls_select(ctx: &VContext, alpn: &[Vec<u8>], sni: &str) -> Result<VConnectionMeta, String> {
+    let demux = Core::verif_tls_demux(&ctx.0);
+    let g = demux.read().unwrap();
+    g.select(alpn.iter().map(Vec::as_slice), sni.to_string())
+        .map(|m| VConnectionMeta {
+            debug: format!("{:?}", m),
+            sni: m.sni,
+            protocol: m.protocol.into(),
+            channel: m.channel.into(),
+            cert_chain_path: m.cert_chain_path,
+            key_path: m.key_path,
+            cert_chain_der: m.cert_chain.into_iter().map(|c| c.0).collect(),
+            sni_auth_creds: m.sni_auth_creds,
+        })
+}
+
+// ---------------------------------------------------------------------------------------------
+// TLS listener
+// ---------------------------------------------------------------------------------------------
+
+/// `Ok(Some(random))` = found, `Ok(None)` = not found, `Err(())` = need more data
+pub fn extract_client_random(data: &[u8]) -> Result<Option<Vec<u8>>, ()> {
+    crate::tls_listener::TlsListener::verif_extract_client_random(data)
+}
+
+pub struct VTlsAcceptor(crate::tls_listener::TlsAcceptor);
+
+pub async fn tls_listen(stream: tokio::net::TcpStream) -> io::Result<VTlsAcceptor> {
+    crate::tls_listener::TlsListener::new()
+        .listen(stream)
+        .await
+        .map(VTlsAcceptor)
+}
+
+impl VTlsAcceptor {
+    pub fn sni(&self) -> Option<String> {
+        self.0.sni()
+    }
+    pub fn alpn(&self) -> Vec<Vec<u8>> {
+        self.0.alpn()
+    }
+    pub fn client_random(&self) -> Option<Vec<u8>> {
+        self.0.client_random()
+    }
+    /// Completes the handshake with the given identity; returns a plain byte stream
+    pub async fn accept(
+        self,
+        protocol: VProtocol,
+        cert_chain_path: &str,
+        key_path: &str,
+    ) -> io::Result<Box<dyn VStream>> {
+        let certs = crate::utils::load_certs(cert_chain_path)?;
+        let key = crate::utils::load_private_key(key_path)?;
+        let s = self
+            .0
+            .accept(protocol.into(), certs, key, &log_utils::IdChain::empty())
+            .await?;
+        Ok(Box::new(s))
+    }
+}
+
+pub trait VStream: AsyncRead + AsyncWrite + Unpin + Send {}
+impl<T: AsyncRead + AsyncWrite + Unpin + Send> VStream for T {}
+
+/// `Core::on_new_tls_connection`: rules, SNI/ALPN selection, handshake, channel dispatch
+pub async fn on_new_tls_connection(
+    ctx: &VContext,
+    acceptor: VTlsAcceptor,
+    client_ip: IpAddr,
+) -> Result<(), String> {
+    let (client, _) = Core::verif_next_ids(&ctx.0);
+    let id = log_utils::IdChain::from(log_utils::IdItem::new(log_utils::CLIENT_ID_FMT, client));
+    Core::verif_on_new_tls_connection(ctx.0.clone(), acceptor.0, client_ip, id).await
+}
+
+// ---------------------------------------------------------------------------------------------
+// Shutdown (crate-private halves)
+// ---------------------------------------------------------------------------------------------
+
+pub struct VNotification(crate::shutdown::Notification);
+pub struct VCompletionGuard(#[allow(dead_code)] crate::shutdown::CompletionGuard);
+
+pub fn shutdown_notification_handler(s: &crate::shutdown::Shutdown) -> VNotification {
+    VNotification(s.notification_handler())
+}
+
+pub fn shutdown_completion_guard(s: &crate::shutdown::Shutdown) -> Option<VCompletionGuard> {
+    s.completion_guard().map(VCompletionGuard)
+}
+
+impl VNotification {
+    /// `Ok(())` = shutdown submitted, `Err(())` = channel closed
+    pub async fn wait(&mut self) -> Result<(), ()> {
+        self.0.wait().await.map_err(|_| ())
+    }
+}
+
+// ---------------------------------------------------------------------------------------------
+// Metrics
+// ---------------------------------------------------------------------------------------------
+
+/// The text `Metrics::collect` produces for this context (what `GET /metrics` serves)
+pub fn metrics_collect(ctx: &VContext) -> String {
+    let (_, body) = ctx.0.metrics.verif_collect();
+    String::from_utf8_lossy(&body).into_owned()
+}
+
+pub async fn metrics_handle_request(ctx: &VContext, io: tokio::net::TcpStream) {
+    crate::metrics::verif_handle_request(ctx.0.clone(), io, log_utils::IdChain::empty()).await
+}
